@@ -3,6 +3,20 @@ import os
 import yaml
 
 
+class _Precisions(dict):
+    """ Display precisions by unit. The two spellings of micro are one unit: 'µL' is rounded like 'uL'. """
+
+    @staticmethod
+    def _spelling(unit):
+        return unit.replace('µ', 'u') if isinstance(unit, str) else unit
+
+    def __contains__(self, unit):
+        return super().__contains__(self._spelling(unit))
+
+    def __getitem__(self, unit):
+        return super().__getitem__(self._spelling(unit))
+
+
 class Config:
     def __init__(self):
         file_path = None
@@ -41,7 +55,8 @@ class Config:
 
         self.default_colormap = yaml_config['default_colormap']
         self.default_diverging_colormap = yaml_config['default_diverging_colormap']
-        self.precisions = yaml_config['precisions']
+        self.precisions = _Precisions((_Precisions._spelling(unit), precision)
+                                      for unit, precision in yaml_config['precisions'].items())
 
 
 # This has to be imported after Config is defined, otherwise there will be a circular import.
